@@ -48,7 +48,7 @@ import gen_schema
 PROP = 'C12'
 RULE = ('four streams from one PRNG: arbitrary strings (15 %), random token sequences (14 %), valid files and their '
         'single-edit mutations (68 %; attribute names of one class may coincide apart from letter case, `mro` is in the '
-        'identifier pool), small files around case-variant attribute names and python class attributes (3 %); 2.5 % of the texts get a numeral of 39-3999 digits (with or without fraction, in a column of a declared type) and 2 % a lone surrogate; 1-4 texts per loader; a case is non-trivial when at least one text was accepted and at least '
+        'identifier pool), small files around case-variant attribute names and python class attributes (3 %); 2.5 % of the texts get a numeral of 39-3999 digits (with or without fraction, in a column of a declared type) and 2 % a lone surrogate; 1-4 texts per loader; 700 / 9000 extra small files crossing every column type with every lexical class of value (positional and named INSERT, null-valued keys); every third case is fed once more through filename_input / file_input / load_metamodel (files) and compared with what input() did; a case is non-trivial when at least one text was accepted and at least '
         'one rejected, or the build ended in a documented exception; distinct = distinct text sequence')
 EXHAUSTIVE = {'quick': False, 'thorough': False}
 ASSUMPTIONS = [
